@@ -6,8 +6,8 @@ CONSTANTS
   Breaks <- BreaksQ
   Degs <- DegsT
   MaxNpts = 5
-  Acts = {"CvFitCurve"}
-  PtKinds = {"pos"}
+  Acts = {"CvFitCurve", "CvFitInRational"}
+  PtKinds = {"pos", "ratlin"}
   WtKinds = {"none"}
   ExtraNodes <- Extra0
   NodeSize = 2
